@@ -699,3 +699,185 @@ Proof.
   2:{ intros f. rewrite size_fb1 by lia. rewrite sf_size_exact_proved. reflexivity. }
   rewrite mb_size_exact_proved. unfold szv. rewrite !sov_enc_bool. lia.
 Qed.
+
+(* ---------- EntryBatch ---------- *)
+Lemma entry_enc_lt e : wf_entry e -> nlen (encode e) < 2 ^ 64.
+Proof.
+  intros H. pose proof (entry_size_le_upper_limit_proved e H) as L.
+  destruct H as (_ & _ & _ & _ & _ & _ & _ & _ & Hc).
+  unfold size_upper_limit in L. change entry_non_cmd_fields_size with 128 in L.
+  change colfer_size_max with 8796093022208 in Hc. change (2 ^ 64) with 18446744073709551616. lia.
+Qed.
+
+Lemma entry_decode_exact_enc' e : wf_entry e -> entry_decode_exact (encode e) = Some e.
+Proof. intros H. unfold entry_decode_exact. rewrite entry_roundtrip_proved by exact H. reflexivity. Qed.
+
+Lemma entries_fields_wf n es : wf_num n -> Forall wf_entry es ->
+  Forall wf_field (map (fun e => (n, FB (encode e))) es).
+Proof.
+  intros Hn H. apply (Forall_map_wf _ wf_entry); [|exact H].
+  intros e He. split; [exact Hn|apply entry_enc_lt; exact He].
+Qed.
+
+Lemma eb_roundtrip_proved es : Forall wf_entry es -> eb_decode (eb_encode es) = Some es.
+Proof.
+  intros H. unfold eb_decode, eb_encode, eb_to_fields.
+  rewrite decode_with_enc by (apply entries_fields_wf; [apply wf_num_lit; reflexivity|exact H]).
+  rewrite (fold_fields_map_append eb_step (fun e => (1, FB (encode e))) wf_entry (fun t => t) (fun _ x => x));
+    [|intros t a Ha; cbn [eb_step]; rewrite entry_decode_exact_enc' by exact Ha; reflexivity
+     |reflexivity|reflexivity|exact H].
+  destruct es; reflexivity.
+Qed.
+
+Lemma entries_nlen n es : n < 16 ->
+  nlen (enc_fields (map (fun e => (n, FB (encode e))) es)) = sum_map (fun e => szb (size e)) es.
+Proof.
+  intros H. apply nlen_enc_map. intros e. rewrite size_fb1 by exact H.
+  rewrite entry_size_exact_proved. reflexivity.
+Qed.
+
+Lemma eb_size_exact_proved es : nlen (eb_encode es) = eb_size es.
+Proof. unfold eb_encode, eb_to_fields, eb_size. apply entries_nlen. lia. Qed.
+
+Lemma szb_le l : szb l <= l + 11.
+Proof. unfold szb. pose proof (sov_le_10 l). lia. Qed.
+
+Lemma entries_size_le_upper k es : Forall wf_entry es -> 11 <= k ->
+  sum_map (fun e => szb (size e)) es <= sum_map (fun e => size_upper_limit e + k) es.
+Proof.
+  intros H Hk. induction H as [|e es He _ IH]; [cbn; lia|].
+  cbn [sum_map fold_right].
+  fold (sum_map (fun e => szb (size e)) es). fold (sum_map (fun e => size_upper_limit e + k) es).
+  pose proof (entry_size_le_upper_limit_proved e He) as L. rewrite entry_size_exact_proved in L.
+  pose proof (szb_le (size e)). lia.
+Qed.
+
+Lemma eb_size_le_upper_proved es : Forall wf_entry es -> eb_size es <= eb_size_upper es.
+Proof.
+  intros H. unfold eb_size, eb_size_upper.
+  pose proof (entries_size_le_upper eb_upper_per_entry es H ltac:(vm_compute; discriminate)). lia.
+Qed.
+
+(* ---------- Message ---------- *)
+Lemma msg_size_parts m : msg_size m < 2 ^ 63 -> sn_size (m_snapshot m) < 2 ^ 63.
+Proof. unfold msg_size, szb, szv. change (2 ^ 63) with 9223372036854775808. lia. Qed.
+
+Lemma msg_fields_wf m : wf_msg m -> Forall wf_field (msg_to_fields m).
+Proof.
+  intros (A & B & C & D & E & F & G & H & I & J & K & L & M).
+  unfold msg_to_fields. rewrite !Forall_app. repeat split.
+  - fields_wf.
+  - apply entries_fields_wf; [apply wf_num_lit; reflexivity|exact J].
+  - pose proof (msg_size_parts m M) as S. rewrite <- sn_size_exact_proved in S. apply lt63_lt64 in S.
+    fields_wf.
+Qed.
+
+Definition msg_put_entries (t : message) (x : list entry) : message :=
+  mkMsg (m_type t) (m_to t) (m_from t) (m_shard t) (m_term t) (m_logterm t) (m_logindex t)
+        (m_commit t) (m_reject t) (m_hint t) x (m_snapshot t) (m_hinthigh t).
+
+Lemma msg_fold m : wf_msg m -> fold_fields msg_step (msg_to_fields m) msg_zero = Some m.
+Proof.
+  intros (A & B & C & D & E & F & G & H & I & J & K & L & M).
+  unfold msg_to_fields. rewrite fold_fields_app.
+  cbn [fold_fields msg_step msg_zero]. rewrite dec_enc_i32 by exact A. rewrite dec_enc_bool.
+  rewrite fold_fields_app.
+  rewrite (fold_fields_map_append msg_step (fun e => (11, FB (encode e))) wf_entry m_entries msg_put_entries);
+    [|intros [] a Ha; cbn [msg_step]; rewrite entry_decode_exact_enc' by exact Ha; reflexivity
+     |intros [] x; reflexivity|intros [] x y; reflexivity|exact J].
+  destruct m as [a b c d e f g h i j k l n].
+  cbn [m_type m_to m_from m_shard m_term m_logterm m_logindex m_commit m_reject m_hint m_entries
+       m_snapshot m_hinthigh] in *.
+  destruct k as [|k0 k];
+    cbn [fold_fields msg_step msg_put_entries app
+         m_type m_to m_from m_shard m_term m_logterm m_logindex m_commit m_reject m_hint m_entries
+         m_snapshot m_hinthigh];
+    fold (sn_decode (sn_encode l)); rewrite sn_roundtrip_proved by exact K; reflexivity.
+Qed.
+
+Lemma msg_roundtrip_proved m : wf_msg m -> msg_decode (msg_encode m) = Some m.
+Proof.
+  intros H. unfold msg_decode, msg_encode. rewrite decode_with_enc by (apply msg_fields_wf; exact H).
+  apply msg_fold. exact H.
+Qed.
+
+Lemma msg_size_exact_proved m : nlen (msg_encode m) = msg_size m.
+Proof.
+  unfold msg_encode, msg_to_fields, msg_size. size_simpl.
+  rewrite entries_nlen by lia. rewrite sn_size_exact_proved. unfold szv. rewrite sov_enc_bool. lia.
+Qed.
+
+Lemma sum_map_ext {A} (f g : A -> N) l : (forall a, f a = g a) -> sum_map f l = sum_map g l.
+Proof.
+  intros H. induction l as [|a l IH]; [reflexivity|]. cbn [sum_map fold_right].
+  fold (sum_map f l). fold (sum_map g l). rewrite H, IH. reflexivity.
+Qed.
+
+Lemma szv_le x : szv x <= 11.
+Proof. unfold szv. pose proof (sov_le_10 x). lia. Qed.
+
+Lemma msg_size_le_upper_proved m : wf_msg m -> msg_size m <= msg_size_upper m.
+Proof.
+  intros (A & B & C & D & E & F & G & H & I & J & K & L & M).
+  unfold msg_size, msg_size_upper.
+  pose proof (szv_le (enc_i32 (m_type m))). pose proof (szv_le (m_to m)). pose proof (szv_le (m_from m)).
+  pose proof (szv_le (m_shard m)). pose proof (szv_le (m_term m)). pose proof (szv_le (m_logterm m)).
+  pose proof (szv_le (m_logindex m)). pose proof (szv_le (m_commit m)). pose proof (szv_le (m_hint m)).
+  pose proof (szv_le (m_hinthigh m)). pose proof (szb_le (sn_size (m_snapshot m))).
+  pose proof (entries_size_le_upper msg_upper_per_entry (m_entries m) J ltac:(vm_compute; discriminate)) as P.
+  assert (Q : sum_map (fun e => size_upper_limit e + msg_upper_per_entry) (m_entries m) =
+              sum_map (fun e => msg_upper_per_entry + size_upper_limit e) (m_entries m))
+    by (apply sum_map_ext; intros; lia).
+  rewrite Q in P. change msg_upper_base with 192. lia.
+Qed.
+
+(* ---------- MessageBatch ---------- *)
+Lemma bt_fields_wf b : wf_bt b -> Forall wf_field (bt_to_fields b).
+Proof.
+  intros (A & B & C & D). unfold bt_to_fields. rewrite Forall_app. split.
+  - apply (Forall_map_wf _ wf_msg); [|exact A]. intros m Hm.
+    split; [apply wf_num_lit; reflexivity|]. rewrite msg_size_exact_proved.
+    apply lt63_lt64. apply Hm.
+  - apply lt63_lt64 in C. apply lt32_lt64 in D. fields_wf.
+Qed.
+
+Definition bt_put_requests (t : messagebatch) (x : list message) : messagebatch :=
+  mkMBatch x (bt_deployment t) (bt_source t) (bt_binver t).
+
+Lemma bt_roundtrip_proved b : wf_bt b -> bt_decode (bt_encode b) = Some b.
+Proof.
+  intros Hw. pose proof Hw as (A & B & C & D).
+  unfold bt_decode, bt_encode. rewrite decode_with_enc by (apply bt_fields_wf; exact Hw).
+  unfold bt_to_fields. rewrite fold_fields_app.
+  rewrite (fold_fields_map_append bt_step (fun m => (1, FB (msg_encode m))) wf_msg bt_requests bt_put_requests);
+    [|intros [] a Ha; cbn [bt_step]; rewrite msg_roundtrip_proved by exact Ha; reflexivity
+     |intros [] x; reflexivity|intros [] x y; reflexivity|exact A].
+  destruct b as [r d s v]. cbn [bt_requests bt_deployment bt_source bt_binver] in *.
+  destruct r as [|r0 r];
+    cbn [fold_fields bt_step bt_put_requests bt_zero app bt_requests bt_deployment bt_source bt_binver];
+    rewrite dec_u32_small by exact D; reflexivity.
+Qed.
+
+Lemma bt_size_exact_proved b : nlen (bt_encode b) = bt_size b.
+Proof.
+  unfold bt_encode, bt_to_fields, bt_size. size_simpl.
+  rewrite (nlen_enc_map _ (fun m => szb (msg_size m))).
+  2:{ intros m. rewrite size_fb1 by lia. rewrite msg_size_exact_proved. reflexivity. }
+  lia.
+Qed.
+
+Lemma bt_size_le_upper_proved b : wf_bt b -> bt_size b <= bt_size_upper b.
+Proof.
+  intros (A & B & C & D). unfold bt_size, bt_size_upper.
+  pose proof (szv_le (bt_deployment b)). pose proof (szb_le (nlen (bt_source b))).
+  assert (V : szv (bt_binver b) <= 11) by apply szv_le.
+  assert (P : sum_map (fun m => szb (msg_size m)) (bt_requests b) <=
+              sum_map (fun m => bt_upper_per_msg + msg_size_upper m) (bt_requests b)).
+  { induction A as [|m ms Hm _ IH]; [cbn; lia|].
+    cbn [sum_map fold_right].
+    fold (sum_map (fun m => szb (msg_size m)) ms).
+    fold (sum_map (fun m => bt_upper_per_msg + msg_size_upper m) ms).
+    pose proof (msg_size_le_upper_proved m Hm). pose proof (szb_le (msg_size m)).
+    change bt_upper_per_msg with 16 in *. lia. }
+  change bt_upper_base with 48. lia.
+Qed.
